@@ -691,6 +691,11 @@ def r03_15(chk):
         raise AnalysisError("AlignmentI.take_positions: the omit-lookup built from the indices was not found")
     for tg, v in lookups:
         normalised = any(isinstance(x, ast.BinOp) and isinstance(x.op, (ast.Mod, ast.Add)) for x in ast.walk(v)) or any(isinstance(x, ast.Call) and call_name(x) in ("range", "numpy.arange") for x in ast.walk(v))
+        wraps = [x for x in ast.walk(v) if isinstance(x, ast.BinOp) and isinstance(x.op, ast.Mod)]
+        if wraps:
+            chk.violation("R03.15", key(m, "AlignmentI.take_positions", "out-of-range indices are not wrapped"), m.loc(wraps[0]), f"`{norm(wraps[0])}` folds every index into 0..len-1: omitting the out-of-range position len(aln) removes column 0 (taking it raises IndexError), so taking and omitting are not complementary; only negative indices count from the end")
+        else:
+            chk.ok("R03.15", key(m, "AlignmentI.take_positions", "out-of-range indices are not wrapped"), m.loc(v), "no modulo on the indices")
         chk.decide(normalised, "R03.15", key(m, "AlignmentI.take_positions", "omitted indices normalised"), m.loc(v), f"`{norm(v)[:70]}`", f"`{norm(v)[:70]}` keeps the indices as given: a negative index is never equal to a position in range(len(seq)), so take_positions([-1], negate=True) omits nothing while take_positions([-1]) selects the last column")
     chk.floor("R03.15", 1, "the negate branch")
 
@@ -883,7 +888,72 @@ def r03_19(chk):
     chk.floor("R03.19", 2, "leading and trailing terminus")
 
 
+LIST_MUTATORS = {"remove", "insert", "append", "extend", "sort", "reverse", "pop", "clear"}
+OWN_LISTS = {"self.names", "self._names", "self.seqs", "self._seqs"}
+
+
+def r03_20(chk):
+    chk.rule("R03.20", "a method that only reads an alignment does not reorder it: no method of the alignment / collection classes mutates IN PLACE a local name that is bound directly to one of the object's own lists (`x = self.names`, no copy) -- to_html moving the reference row to the front of such an alias reorders the names of an Alignment, and of an ArrayAlignment without moving the array rows, so rows end up under the wrong names")
+    n = 0
+    for rel in ("core/alignment.py", "core/new_alignment.py"):
+        m = chk.repo.module(rel)
+        for q, fn in m.all_functions():
+            if "." not in q:
+                continue
+            aliases = {}
+            for st in walk_no_nested(fn):
+                if isinstance(st, ast.Assign) and len(st.targets) == 1 and isinstance(st.targets[0], ast.Name):
+                    if norm(st.value) in OWN_LISTS:
+                        aliases.setdefault(st.targets[0].id, []).append(st)
+                    elif st.targets[0].id in aliases and st.lineno > aliases[st.targets[0].id][0].lineno:
+                        pass
+            if not aliases:
+                continue
+            for name, defs in aliases.items():
+                all_defs = [st for st in walk_no_nested(fn) if isinstance(st, ast.Assign) and any(isinstance(t, ast.Name) and t.id == name for t in st.targets)]
+                for x in walk_no_nested(fn):
+                    hit = None
+                    if isinstance(x, ast.Call) and isinstance(x.func, ast.Attribute) and x.func.attr in LIST_MUTATORS and isinstance(x.func.value, ast.Name) and x.func.value.id == name:
+                        hit = x
+                    if isinstance(x, (ast.Assign, ast.AugAssign, ast.Delete)):
+                        tg = x.targets if isinstance(x, (ast.Assign, ast.Delete)) else [x.target]
+                        if any(isinstance(t, ast.Subscript) and isinstance(t.value, ast.Name) and t.value.id == name for t in tg):
+                            hit = x
+                    if hit is None:
+                        continue
+                    # which definition reaches the mutation? the latest one above it in source order (branches are
+                    # treated conservatively: an alias definition in any branch counts unless a copy follows it)
+                    above = [d for d in all_defs if d.lineno < hit.lineno]
+                    alias_reaches = any(norm(d.value) in OWN_LISTS for d in above) and not (above and norm(above[-1].value) not in OWN_LISTS and not isinstance(above[-1].value, ast.Name) and above[-1].col_offset <= min(dd.col_offset for dd in above))
+                    n += 1
+                    chk.decide(not alias_reaches, "R03.20", key(m, q, f"in-place edit of `{name}`"), m.loc(hit), "the edited list is a copy", f"`{norm(hit)[:60]}` edits `{name}`, which is bound directly to `{norm(defs[0].value)}` (no copy): the method reorders the object it only reads -- aln.to_html() moves the longest row's NAME to the front; for an ArrayAlignment the array rows stay, so every row is then shown under another name")
+    if n == 0:
+        chk.ok("R03.20", key("core/alignment.py", "<classes>", "no in-place edit of an aliased own list"), "src/cogent3/core/alignment.py:1", "no alias of an own list is edited in place", nontrivial=False)
+    # probe
+    probe = ast.parse("class A:\n    def m(self):\n        order = self.names\n        order.remove('x')\n").body[0].body[0]
+    al = [st for st in ast.walk(probe) if isinstance(st, ast.Assign) and norm(st.value) in OWN_LISTS]
+    mu = [x for x in ast.walk(probe) if isinstance(x, ast.Call) and isinstance(x.func, ast.Attribute) and x.func.attr in LIST_MUTATORS]
+    if not (al and mu):
+        raise AnalysisError("R03.20 self-probe failed")
+
+
+def r03_21(chk):
+    chk.rule("R03.21", "sampling motifs keeps each motif's columns together and in order: in ArrayAlignment.sample the motif starts are repeated motif_length times each (`.repeat(motif_length)`: s0 s0 s0 s1 s1 s1), so the within-motif offsets added to them cycle 0..k-1 per motif (the reshaped view `+= arange(k)`, or `tile(arange(k), n)`) -- offsets that are themselves `.repeat(...)`-ed (0 0 1 1 2 2) pair starts and offsets wrongly: columns are duplicated and dropped and the sampled 'codons' are not codons of the alignment")
+    m = chk.repo.module("core/alignment.py")
+    q = "ArrayAlignment.sample"
+    fn = m.func(q)
+    reps = [c for c in walk_no_nested(fn) if isinstance(c, ast.Call) and isinstance(c.func, ast.Attribute) and c.func.attr == "repeat" and "motif_length" in norm(c)]
+    if not reps:
+        chk.ok("R03.21", key(m, q, "motif offsets cycle per motif"), m.loc(fn), "no repeat-based expansion of motif starts", nontrivial=False)
+    else:
+        bad = [c for c in reps if isinstance(c.func.value, ast.Call) and (call_name(c.func.value) or "").split(".")[-1] == "arange"]
+        chk.decide(not bad, "R03.21", key(m, q, "motif offsets cycle per motif"), m.loc(bad[0] if bad else reps[0]), "the starts are repeated, the offsets are not", f"`{norm(bad[0]) if bad else ''}` repeats the OFFSETS as well: starts s0 s0 s0 s1 s1 s1 plus offsets 0 0 1 1 2 2 selects columns s0, s0, s0+1, s1+1, s1+2, s1+2 instead of s0, s0+1, s0+2, s1, s1+1, s1+2")
+    chk.floor("R03.21", 1, "sample")
+
+
 def run(chk):
+    r03_21(chk)
+    r03_20(chk)
     r03_19(chk)
     r03_18(chk)
     r03_17(chk)
